@@ -389,6 +389,25 @@ def t18_vsi(run, fx):
             run.fail(rule, "blend:vsindex-default", "the variation data index for blend does not fall back to the Private DICT vsindex (charstring vsindex used: %s, DICT default: %s)" % (uses_field, dict_default), fb.loc(t))
 
 
+def _ok_return(hb, rb):
+    """the return block is reached with an Ok result (not through from_residual / an Err literal)"""
+    seen, st = set(), [rb]
+    # conservative: a return block counts as a success return unless every path into it passes an error construction
+    for p in hb.preds(rb):
+        t = hb.term(p)
+        if t["k"] == "call" and (t["callee"].get("path") or "").endswith("from_residual"):
+            continue
+        return True
+    return not hb.preds(rb)
+
+
+def guards_success(b, t):
+    import guards
+    if t["dest"]["p"]:
+        return []
+    return guards.success_blocks(b, t["dest"]["l"])
+
+
 def t18_mask(run, fx):
     rule = "T18-MASK"
     run.rule(rule, "hint mask length: the bytes read after hintmask/cntrmask are ceil(stems_len / 8), and on every path to that read the stem count has "
@@ -407,24 +426,43 @@ def t18_mask(run, fx):
             if dc and any(y[0] == "field" and y[2] == "stems_len" for y in sym.walk(dc[0])):
                 d = sym.strip(dc[0][2][1])
                 reads.append((bi, t, d[1] if d[0] == "c" else None))
-    stores = []
-    for bi in range(len(b.blocks)):
-        if not b.reachable(bi):
+    def stem_stores(fb):
+        out_ = []
+        pv = sym.Prov(fb)
+        for bi_ in range(len(fb.blocks)):
+            if not fb.reachable(bi_):
+                continue
+            for st in fb.stmts(bi_):
+                pl = st.get("p") or {}
+                if st.get("k") == "assign" and any(isinstance(e, dict) and e.get("n") == "stems_len" for e in pl.get("p", [])):
+                    v = pv.op(st["rv"]["op"]) if st["rv"].get("k") == "use" else None
+                    good = False
+                    if v is not None:
+                        for x in sym.walk(v):
+                            if x[0] == "call" and (x[1] or "").endswith("::checked_add") and len(x[2]) == 2:
+                                a0, a1 = sym.strip(x[2][0]), sym.strip(x[2][1])
+                                half = a1[0] == "bin" and ((a1[1] == "Shr" and sym.strip(a1[3])[0] == "c" and sym.strip(a1[3])[1] == 1)
+                                                            or (a1[1] == "Div" and sym.strip(a1[3])[0] == "c" and sym.strip(a1[3])[1] == 2))
+                                if half and any(y[0] == "field" and y[2] == "stems_len" for y in sym.walk(a0)):
+                                    good = True
+                    out_.append((bi_, st, good))
+        return out_
+    stores = stem_stores(b)
+    # a private helper of the interpreter that does the counting (`self.count_stems(stack.len())?`): the call stands for its store when every
+    # store of the helper has the right form and lies on all of its success paths
+    for bi, t in b.calls():
+        cp = t["callee"].get("path") or ""
+        hb = fx.body(cp) if cp.startswith("cff::charstring::") and cp != b.path else None
+        if hb is None or hb.kind == "Closure":
             continue
-        for st in b.stmts(bi):
-            pl = st.get("p") or {}
-            if st.get("k") == "assign" and any(isinstance(e, dict) and e.get("n") == "stems_len" for e in pl.get("p", [])):
-                v = prov.op(st["rv"]["op"]) if st["rv"].get("k") == "use" else None
-                good = False
-                if v is not None:
-                    for x in sym.walk(v):
-                        if x[0] == "call" and (x[1] or "").endswith("::checked_add") and len(x[2]) == 2:
-                            a0, a1 = sym.strip(x[2][0]), sym.strip(x[2][1])
-                            half = a1[0] == "bin" and ((a1[1] == "Shr" and sym.strip(a1[3])[0] == "c" and sym.strip(a1[3])[1] == 1)
-                                                        or (a1[1] == "Div" and sym.strip(a1[3])[0] == "c" and sym.strip(a1[3])[1] == 2))
-                            if half and any(y[0] == "field" and y[2] == "stems_len" for y in sym.walk(a0)):
-                                good = True
-                stores.append((bi, st, good))
+        hs = stem_stores(hb)
+        if hs:
+            okb = [bj for bj in range(len(hb.blocks)) if hb.reachable(bj) and any(
+                st_["k"] == "assign" and st_["p"]["l"] == 0 and not st_["p"]["p"] and st_["rv"]["k"] == "agg" and st_["rv"].get("vname") == "Ok" for st_ in hb.stmts(bj))]
+            good = bool(okb) and all(g for _, _, g in hs) and any(all(hb.dominates(sb, ob) for ob in okb) for sb, _, _ in hs)
+            for sb in guards_success(b, t) or [t.get("target")]:
+                if sb is not None:
+                    stores.append((sb, t, good))
     if not reads or len(stores) < 2:
         return run.anchor_missing(rule, "mask bytes read (read_slice of stems_len.div_ceil(8)) and the two stems_len updates in visit_impl")
     for bi, st, good in stores:
